@@ -31,7 +31,8 @@
     start_index_covered, lods_contiguous_and_match_points, points_bounded (len Time ≤ maxPoints + 3),
     range_end_covered (last point before End, one more step reaches End, the `extend` point, ViewEndX),
     metric_offset_dvd + lods_with_offset_translated (GetLODs with a metric offset = the offset-0 ranges translated),
-    point_single_level, point_range (point queries: [from, to) aligned, from < to, inside the request / covering it with `extend`).
+    lods_shifted_on_grid (for EVERY time shift: every range on the grid of its step - month starts for monthly -, exactly Len
+      grid points inside, LOD.IndexOf defined for each of them), point_single_level, point_range (point queries: [from, to) aligned, from < to, inside the request / covering it with `extend`).
   Explicit exclusion, with `decide` witnesses: monthly step combined with a non-zero metric offset (known finding
     `month-offset-coverage`) — hypothesis `hm` of range_end_covered and lods_with_offset_translated.
   Helper developments: SH.Lemmas.Timescale, SH.Lemmas.TimescaleEnd (what `endOfLOD` computes, its additivity, the point-limit
@@ -503,6 +504,67 @@ example : (getTimescale cal30 { exArgs with mode := .point, extend := false }).t
 example : (getTimescale cal30 { exArgs with mode := .point, extend := true }).toOption =
     some ⟨[60, 300], [⟨60, 4⟩], 0, 0, 1⟩ := by decide
 
+/-! ### time-shifted ranges: alignment, point count, IndexOf -/
+
+/-- the per-level ranges handed to the storage layer, for EVERY time shift `o` (GetLODs(metric, o)): range j has the step of level j,
+    its FromSec and ToSec lie on the grid of that step in the configured zone (month starts for the monthly step: the shifted start is
+    re-aligned), stepping `Len` times from FromSec reaches ToSec, so the range holds exactly the level's `Len` grid points, each of
+    them inside [FromSec, ToSec), aligned, and addressable: LOD.IndexOf returns its position. -/
+theorem lods_shifted_on_grid (cal : Cal) (hc : CalOK cal) (a : Args) (ts : TS)
+    (h : getTimescale cal a = .ok ts) (hp : isPoint a = false) (hne : ts.time ≠ []) (o : Int)
+    (j : Nat) (r : Int × Int × Int) (l : LOD)
+    (hr : (getLODs cal a.utcOffset ts o)[j]? = some r) (hl : ts.lods[j]? = some l) :
+    r.2.2 = l.step ∧ Aligned cal a.utcOffset r.1 l.step ∧ Aligned cal a.utcOffset r.2.1 l.step ∧
+    r.2.1 = segEnd cal l.step l.len r.1 ∧
+    ∀ i, i < l.len → r.1 ≤ segEnd cal l.step i r.1 ∧ segEnd cal l.step i r.1 < r.2.1 ∧
+      Aligned cal a.utcOffset (segEnd cal l.step i r.1) l.step ∧ indexOf cal r (segEnd cal l.step i r.1) = some (i : Int) := by
+  obtain ⟨hok, hlne, ht, _, _⟩ := range_facts cal a ts h hp hne
+  obtain ⟨rest, hrest⟩ := expand_head ts.lods hok hlne
+  have hhead : ts.time = tstart cal a (step0Of ts.lods) ::
+      (walk cal rest (stepForward cal (tstart cal a (step0Of ts.lods)) (step0Of ts.lods))).1 := by
+    rw [ht, hrest]; simp [walk]
+  have hs0 := step0_ok a _ hok hlne
+  obtain ⟨x0, hx0⟩ := backN_is_start cal (step0Of ts.lods) a.utcOffset
+    (leftExtra a (startOfLOD cal a.start (step0Of ts.lods) a.utcOffset)) a.start
+  have hal : Aligned cal a.utcOffset (tstart cal a (step0Of ts.lods)) (step0Of ts.lods) := by
+    unfold tstart; rw [hx0]; exact startOfLOD_aligned cal hc _ _ _ hs0
+  have hS : ∃ S, getLODs cal a.utcOffset ts o = lodRanges cal ts.lods S ∧ Aligned cal a.utcOffset S (step0Of ts.lods) := by
+    unfold getLODs; rw [hhead]
+    by_cases ho : (o != 0) = true
+    · exact ⟨startOfLOD cal (tstart cal a (step0Of ts.lods) - o) (step0Of ts.lods) a.utcOffset, by simp only [ho, if_true],
+        startOfLOD_aligned cal hc _ _ _ hs0⟩
+    · exact ⟨tstart cal a (step0Of ts.lods), by simp only [ho, Bool.false_eq_true, if_false], hal⟩
+  obtain ⟨S, hg, hSa⟩ := hS
+  rw [hg] at hr
+  obtain ⟨g1, g2, g3, g4⟩ := lodRanges_grid cal hc a.utcOffset (tbl_link cal a.utcOffset a) ts.lods hok S hSa j r l hr hl
+  have hlm : l ∈ ts.lods := List.mem_of_getElem? hl
+  have hstep := (hok.1 l hlm).1
+  have hfw := tbl_fwd cal hc a l.step hstep
+  have hsp : isMonth l.step = true ∨ 0 < l.step := Or.inr (tbl_pos a l.step hstep)
+  refine ⟨g1, g2, g3, g4, ?_⟩
+  intro i hi
+  refine ⟨?_, ?_, aligned_segEnd cal hc _ _ i _ g2, ?_⟩
+  · have := segEnd_ge cal l.step hfw i r.1
+    have : (0 : Int) ≤ i := Int.natCast_nonneg i
+    omega
+  · rw [g4]; exact segEnd_lt cal l.step hfw i l.len hi r.1
+  · have hrr : r = (r.1, r.2.1, l.step) := by rw [← g1]
+    rw [hrr]; exact indexOf_grid cal l.step hfw hsp _ _ i
+
+/-- the monthly axis [3M, 4M, 5M] of the 30-day calendar, shifted by 31 days (one nominal month, what the API passes) -/
+def monthlyTS : TS := ⟨[7776000, 10368000, 12960000], [⟨2678400, 3⟩], 1, 1, 3⟩
+
+/-- the code: the shifted start is re-aligned to the month start (month 1), the range holds months 1, 2, 3 -/
+example : getLODs cal30 0 monthlyTS 2678400 = [(2592000, 10368000, 2678400)] ∧ cal30.som 2592000 = 2592000 ∧
+    indexOf cal30 (2592000, 10368000, 2678400) 7776000 = some 2 := by decide
+/-- seeded variant C22-r3-1 (`start := Time[0] - offset`, no re-alignment) as a counter-example: the range starts at
+    3M - 31d = 5097600, inside month 1 (not a month start), and only two month starts (2M, 3M) lie in [5097600, 4M) although the
+    axis has three points -/
+example : getLODsNoRealign cal30 monthlyTS 2678400 = [(5097600, 10368000, 2678400)] ∧ cal30.som 5097600 ≠ 5097600 ∧
+    segEnd cal30 2678400 1 5097600 = 2592000 * 2 ∧ segEnd cal30 2678400 3 5097600 = 10368000 := by decide
+/-- fixed steps: IndexOf of a grid point, of an off-grid instant (error), and before the range (negative index, as in Go) -/
+example : indexOf cal30 (0, 600, 60) 120 = some 2 ∧ indexOf cal30 (0, 600, 60) 121 = none ∧
+    indexOf cal30 (0, 600, 60) (-60) = some (-1) := by decide
 /-! ### the two findings on the code as it is, as `decide` witnesses on the model
 
   (1) fixes/C22-month-start.diff. Before the fix StepForward is `AddDate(0,1,0)`: it adds a month to the previous point instead of
@@ -541,5 +603,11 @@ example : (getTimescale cal30 { exArgsMonthly with end_ := 2592000 * 5 + 100000,
     some [7776000, 10368000, 12960000, 15552000] := by decide
 example : (getTimescale cal30 { exArgsMonthly with end_ := 2592000 * 5 + 100000, metrics := [] }).toOption.map (·.time) =
     some [7776000, 10368000, 12960000] := by decide
+
+/-! (3) fixes/C22-indexof-month.diff: before it IndexOf stepped with AddDate(0,1,0) (`calGapOld.next`): after a month that starts at 01:00
+    every later month start is missed; with StepForward (`calGapFixed.next`) month 4 of the range starting at month 2 has index 2 -/
+example : indexOf calGapOld (5184000, 15552000, 2678400) 10368000 = none ∧
+    indexOf calGapFixed (5184000, 15552000, 2678400) 10368000 = some 2 := by decide
+
 
 end SH.C22
